@@ -1655,3 +1655,79 @@ def no_symbol_keys(chk, repo, rid, prefixes):
                    f"`{unparse(n)[:70]}` uses a gene symbol as a mapping key: genes that share a symbol (PAR_Y copies, repeated names, '' when the GTF has no gene_name) collide - "
                    "a later gene receives what was cached for the first one", key=f"{f.qual}::symbol-key", fn=f.qual)
         chk.functions.add(f.qual)
+
+
+_MUT_CTORS = ('dict', 'list', 'set', 'deque', 'defaultdict', 'OrderedDict', 'Counter', 'collections.deque', 'collections.defaultdict',
+              'collections.OrderedDict', 'collections.Counter', 'bytearray')
+_MUT_METHODS = ('append', 'appendleft', 'extend', 'extendleft', 'add', 'update', 'pop', 'popleft', 'popitem', 'remove', 'discard', 'clear',
+                'insert', 'setdefault', 'sort', 'reverse', 'rotate', '__setitem__', '__delitem__')
+
+
+def _self_inplace_attrs(fnode) -> set:
+    """attributes of `self` that the function changes in place: self.A[k] = v, del self.A[k], self.A.<mutator>(...), self.A op= v on a container"""
+    out = set()
+
+    def self_attr(e):
+        return e.attr if isinstance(e, ast.Attribute) and isinstance(e.value, ast.Name) and e.value.id == 'self' else None
+    for n in walk_no_nested(fnode):
+        if isinstance(n, (ast.Assign, ast.AugAssign, ast.AnnAssign, ast.Delete)):
+            tgs = n.targets if isinstance(n, (ast.Assign, ast.Delete)) else [n.target]
+            for t in tgs:
+                if isinstance(t, ast.Subscript) and self_attr(t.value):
+                    out.add(self_attr(t.value))
+        if isinstance(n, ast.Call) and isinstance(n.func, ast.Attribute) and n.func.attr in _MUT_METHODS and self_attr(n.func.value):
+            out.add(self_attr(n.func.value))
+    return out
+
+
+def instance_state_per_instance(chk, repo, rid, mod_prefixes, floor=1):
+    """R-FRESH (object scope): a container attribute that methods change in place through `self` (a cache of loaded models, its
+    eviction queue) is state of ONE object.  Python gives every instance the same object when the container is bound in the class
+    body and no constructor rebinds it, so two annotations / parsers alive in one process would serve each other's entries.
+    Instances are discovered: every (class, attribute) changed in place through self by a method of the class or of a base.
+    Discharged when a constructor of the MRO binds `self.A`, or when no class body of the MRO binds A to a mutable container."""
+    chk.rule(rid, 'R-FRESH: containers changed in place through self are bound per instance by a constructor, never only in the class body', floor)
+    for cq, ci in sorted(repo.classes.items()):
+        if not any(ci.module.modname == m or ci.module.modname.startswith(m + '.') for m in mod_prefixes):
+            continue
+        mro = repo.mro(ci)
+        mutated = {}
+        for c in mro:
+            for mname, m in c.methods.items():
+                for a in _self_inplace_attrs(m.node):
+                    mutated.setdefault(a, m)
+        for attr, m in sorted(mutated.items()):
+            bound_init, bound_other, class_mut = None, None, None
+            for c in mro:
+                for mname, mm in c.methods.items():
+                    for a in walk_no_nested(mm.node):
+                        if isinstance(a, (ast.Assign, ast.AnnAssign)) and getattr(a, 'value', None) is not None:
+                            for t in (a.targets if isinstance(a, ast.Assign) else [a.target]):
+                                for tt in (t.elts if isinstance(t, (ast.Tuple, ast.List)) else [t]):
+                                    if unparse(tt) == f"self.{attr}":
+                                        if mname in ('__init__', '__new__', '__post_init__'):
+                                            bound_init = bound_init or mm
+                                        else:
+                                            bound_other = bound_other or mm
+                for st in c.node.body:
+                    if isinstance(st, (ast.Assign, ast.AnnAssign)) and getattr(st, 'value', None) is not None:
+                        tg = st.targets[0] if isinstance(st, ast.Assign) else st.target
+                        if isinstance(tg, ast.Name) and tg.id == attr:
+                            v = st.value
+                            if isinstance(v, (ast.Dict, ast.List, ast.Set, ast.DictComp, ast.ListComp, ast.SetComp)) or \
+                                    (isinstance(v, ast.Call) and call_name(v) in _MUT_CTORS):
+                                class_mut = class_mut or (c, st)
+            if class_mut is None and bound_init is None:
+                continue        # bound elsewhere (slots of a builtin base, another method): nothing shared by construction
+            chk.uses(m)
+            chk.functions.add(m.qual)
+            key = f"{cq}::{attr}::per-instance"
+            if class_mut is not None and bound_init is None and bound_other is not None:
+                chk.undecided(rid, f"{ci.node.name}.{attr} bound per instance", repo.loc(class_mut[0].module, class_mut[1]),
+                              f"{ci.node.name}.{attr} is a mutable class attribute rebound only by {bound_other.qual}: whether every instance rebinds it before use is not decided", key=key, fn=m.qual)
+                continue
+            where = repo.loc(class_mut[0].module, class_mut[1]) if class_mut and bound_init is None else (bound_init.where if bound_init else m.where)
+            chk.ob(rid, f"{ci.node.name}.{attr} (changed in place by {m.name}) is bound per instance", where, bound_init is not None,
+                   f"{ci.node.name}.{attr} is bound to `{unparse(class_mut[1].value) if class_mut else ''}` in the class body of {class_mut[0].node.name if class_mut else ''} and no constructor "
+                   f"rebinds it, while {m.qual} changes it in place through self: every instance shares ONE container, so entries loaded for one "
+                   "annotation are served to another", key=key, fn=m.qual)
